@@ -224,8 +224,26 @@ def gen_scenario(rng: random.Random) -> list[list[str]]:
         return f"Mark: s{u[0]}"
     w1 = rng.choice([0.2, 0.3, 0.5, 0.8])
     w2 = rng.choice([0.2, 0.4, 1.0])
-    k = rng.randrange(20)
-    if k in (18, 19):
+    k = rng.randrange(22)
+    if k in (20, 21):
+        # a chain of macros (A calls B [calls C]); the last one is redefined between two calls of the first
+        names = ["NA", "NB", "NC"][:rng.choice([2, 3])]
+        lines = []
+        for i, nm in reversed(list(enumerate(names))) if rng.random() < 0.5 else list(enumerate(names)):
+            lines += [f"Macro: {nm}", "    " + m()]
+            if i + 1 < len(names):
+                lines += [f"    Call macro: {names[i + 1]}"]
+            lines += ["    " + m()]
+        lines += [f"Call macro: {names[0]}", m(), f"Macro: {names[-1]}", "    " + m(), f"Call macro: {names[0]}", m()]
+        if k == 21:      # ... and a thresholded line in the macro with a change of Base between the calls
+            b1, b2, thr = rng.choice([("s", "min", 0.02), ("min", "s", 0.01), ("s", "min", 0.01), ("min", "s", 0.02)])
+            head = [f"Macro: {names[0]}x", f"    {thr} " + m(), "    " + m()]
+            if rng.random() < 0.25:      # the macro defined inside the first block (and called again after that block)
+                lines = [f"Base: {b1}", "Block: nb1"] + ["    " + x for x in head] + [f"    Call macro: {names[0]}x", "    End block"]
+            else:
+                lines = [f"Base: {b1}"] + head + ["Block: nb1", f"    Call macro: {names[0]}x", "    End block"]
+            lines += [f"Base: {b2}", "Block: nb2", f"    Call macro: {names[0]}x", "    " + m(), "    End block", m()]
+    elif k in (18, 19):
         # a block ended from a Watch while an Alarm (or a second Watch) of the same block is about to enter its body or is
         # between two body lines; the other condition goes on holding after the block has ended
         t1 = rng.choice([0.8, 1.0, 1.3])
